@@ -1,7 +1,7 @@
 //! C04 — parsing untrusted bytes never panics, aborts or hangs (DESIGN.md §7 C04).
 
 use super::c02::{wfile_strategy, WOpts};
-use super::crash::{crash_check, flush_known};
+use super::crash::flush_known;
 use super::entries::*;
 use crate::engine::{replay_case, CaseReport, Run, Verdict};
 use crate::gen::mutate::{self, Base, Mut};
@@ -22,6 +22,8 @@ pub enum Case {
     /// a stream handed to a stream-level entry point (filters, object stream, xref stream)
     Stream { entry: u8, spec: StreamSpec },
     CMap(CMapSpec),
+    /// the wrapped case, run in the worker compiled without optimisation (2 MiB case stack)
+    Unoptimised(Box<Case>),
 }
 
 impl Case {
@@ -31,6 +33,7 @@ impl Case {
             Case::Raw { entry, bytes } => (*entry, bytes.0.clone()),
             Case::Stream { entry, spec } => (*entry, serde_json::to_vec(spec).unwrap()),
             Case::CMap(spec) => (E_CMAP, serde_json::to_vec(spec).unwrap()),
+            Case::Unoptimised(inner) => inner.materialise(),
         }
     }
 }
@@ -42,7 +45,9 @@ pub fn check(case: &Case) -> Verdict {
         payload.truncate(70_000);
         rep.exclude("input-truncated-to-64KiB");
     }
-    let o = crash_check("C04", entry, &payload, &mut rep)?;
+    let flavour = if matches!(case, Case::Unoptimised(_)) { crate::worker::Flavour::Unoptimised } else { crate::worker::Flavour::Release };
+    let o = super::crash::crash_check_in(flavour, "C04", entry, &payload, &mut rep)?;
+    rep.label_if(flavour == crate::worker::Flavour::Unoptimised, "unoptimised-build");
     rep.label(entry_name(entry));
     if let Outcome::Ok { summary, .. } = &o {
         let trivial = summary.contains("InvalidFileHeader") || summary.contains("Xref(Start)") || summary.starts_with("bad-payload");
@@ -53,7 +58,8 @@ pub fn check(case: &Case) -> Verdict {
         // tolerated known finding
         rep.nontrivial = true;
     }
-    if let Case::Load { base, .. } = case {
+    let inner = if let Case::Unoptimised(i) = case { i.as_ref() } else { case };
+    if let Case::Load { base, .. } = inner {
         rep.label(match base {
             Base::W(_) => "base-reference-writer",
             Base::L(..) => "base-lopdf-writer",
@@ -276,7 +282,7 @@ fn hexnum(v: u64, digits: usize) -> String {
     format!("{:0width$X}", v, width = digits)
 }
 
-fn cmap_strategy() -> BoxedStrategy<Case> {
+pub fn cmap_strategy() -> BoxedStrategy<Case> {
     let code = (prop_oneof![Just(1usize), Just(2), Just(3), Just(4), Just(0), Just(5)], any::<u32>()).prop_map(|(len, v)| {
         if len == 0 {
             String::new()
@@ -343,7 +349,7 @@ fn cmap_strategy() -> BoxedStrategy<Case> {
         .boxed()
 }
 
-fn textstring_strategy() -> BoxedStrategy<Case> {
+pub fn textstring_strategy() -> BoxedStrategy<Case> {
     let unit = prop_oneof![
         3 => any::<u16>().prop_map(|v| v.to_be_bytes().to_vec()),
         2 => (0xD800u16..0xE000).prop_map(|v| v.to_be_bytes().to_vec()),
@@ -358,7 +364,7 @@ fn textstring_strategy() -> BoxedStrategy<Case> {
         .boxed()
 }
 
-fn content_strategy() -> BoxedStrategy<Case> {
+pub fn content_strategy() -> BoxedStrategy<Case> {
     let big = prop_oneof![Just("0"), Just("1"), Just("-1"), Just("4"), Just("65536"), Just("4294967296"), Just("9223372036854775807"), Just("-9223372036854775808"), Just("3037000500"), Just("99999999999999999999"), Just("2147483648")];
     let image = (big.clone(), big.clone(), big.clone(), prop_oneof![Just("/RGB"), Just("/G"), Just("/Gray"), Just("/CMYK"), Just("/Pattern"), Just("/Indexed"), Just("5"), Just("[/RGB]")], vec(any::<u8>(), 0..40), 0u8..8)
         .prop_map(|(w, h, bpc, cs, data, flags)| {
@@ -385,8 +391,20 @@ fn content_strategy() -> BoxedStrategy<Case> {
     vec(token, 0..14).prop_map(|t| Case::Raw { entry: E_CONTENT, bytes: B(t.concat()) }).boxed()
 }
 
+fn unoptimised_strategy(ladder_max: usize) -> BoxedStrategy<Case> {
+    prop_oneof![
+        4 => ladder_strategy(ladder_max),
+        3 => load_strategy(),
+        1 => objstm_strategy(),
+        1 => content_strategy(),
+        1 => cmap_strategy(),
+    ]
+    .prop_map(|c| Case::Unoptimised(Box::new(c)))
+    .boxed()
+}
+
 pub fn run(run: &mut Run) {
-    run.rule = "inputs for the eight byte-level entry points, evaluated in an isolated worker process (8 MiB stack, single allocation request <= max(256 MiB, 4096 x input), cumulative <= max(1 GiB, 16384 x input), watchdog 10 s confirmed alone with 60 s): (a) structure-aware mutants (bit/byte edits, truncation, deletion, insertion, self-splice, every number -> 26 extremes or another number of the file, keyword swaps) of valid files from REF-W (incl. update revisions, object streams, xref streams), lopdf's own writer and the repository assets, through load_mem and IncrementalDocument::load_from; (b) constructions: nesting ladders (arrays, dictionaries, parentheses, mixed; depth 1..20000) in files, content streams and object streams; cross-reference streams with extreme W/Index/Size; object streams with extreme N/First and hostile index blocks; filter chains with extreme Predictor/Colors/Columns/BitsPerComponent/EarlyChange and ASCII85 boundary groups; ToUnicode CMaps from a grammar with reversed, 2^32-wide and short-array ranges and long targets; text strings with lone BOMs, odd lengths and lone surrogates; content streams with hostile tokens and inline images of extreme geometry. lopdf is compiled with overflow checks. Oracle: returns a value or an error — no panic, abort, stack overflow, confirmed hang or oversized allocation. non-trivial = the input gets past header/startxref discovery (load entries) or reaches the decoder proper; distinct by case hash.".into();
+    run.rule = "inputs for the eight byte-level entry points, evaluated in an isolated worker process (8 MiB stack, single allocation request <= max(256 MiB, 4096 x input), cumulative <= max(1 GiB, 16384 x input), watchdog 10 s confirmed alone with 60 s): (a) structure-aware mutants (bit/byte edits, truncation, deletion, insertion, self-splice, every number -> 26 extremes or another number of the file, keyword swaps) of valid files from REF-W (incl. update revisions, object streams, xref streams), lopdf's own writer and the repository assets, through load_mem and IncrementalDocument::load_from; (b) constructions: nesting ladders (arrays, dictionaries, parentheses, mixed; depth 1..20000) in files, content streams and object streams; cross-reference streams with extreme W/Index/Size; object streams with extreme N/First and hostile index blocks; filter chains with extreme Predictor/Colors/Columns/BitsPerComponent/EarlyChange and ASCII85 boundary groups; ToUnicode CMaps from a grammar with reversed, 2^32-wide and short-array ranges and long targets; text strings with lone BOMs, odd lengths and lone surrogates; content streams with hostile tokens and inline images of extreme geometry. lopdf is compiled with overflow checks; campaign 'unoptimised-build' repeats the ladders and a sample of the other constructions against a worker compiled without optimisation (dev profile, 2 MiB case stack, watchdog 30 s / 180 s). Oracle: returns a value or an error — no panic, abort, stack overflow, confirmed hang or oversized allocation. non-trivial = the input gets past header/startxref discovery (load entries) or reaches the decoder proper; distinct by case hash.".into();
     run.assumptions = vec![
         "Err is a pass; slowness below the confirmation threshold is a statistic only".into(),
         "signatures of open known findings are tolerated in-campaign (counted as excluded known:<id>) so that the search continues behind them".into(),
@@ -404,6 +422,10 @@ pub fn run(run: &mut Run) {
     run.campaign("text-strings", textstring_strategy, run.tier.pick(5_000, 100_000), check, |_c, _v| None);
     run.campaign("content-tokens", content_strategy, run.tier.pick(10_000, 400_000), check, |_c, _v| None);
     let _ = thorough;
+    // the same constructions against lopdf compiled without optimisation: stack frames are an order of magnitude
+    // larger there, and that is the build `cargo test` and every debug build of a caller runs
+    run.campaign("unoptimised-build", move || unoptimised_strategy(ladder_max), run.tier.pick(1_500, 40_000), check, |_c, _v| None);
+    crate::engine::libfuzzer::phase(run, super::fuzzdec::TARGETS_C04, &|entry, payload| serde_json::to_value(Case::Raw { entry, bytes: B(payload.to_vec()) }).unwrap());
     flush_known(run);
 }
 
